@@ -113,15 +113,6 @@ def _r1(ctx):
             return any(opaque(x) for x in b_[2])
         return True
     srcs = [x for a in zargs for x in sources(a)] if zargs is not None else []
-    if zargs is None and b is not None:
-        # enumerate(<one list>) instead of enumerate(zip(..)): when that list is visibly a FILTERED view of sequences the rule can see, the
-        # counter no longer is the reaction's position -- positive evidence, not an unknown shape (seeded C05c)
-        zs = sources(b["z"])
-        if zs and not any(opaque(b_) for b_, _ in zs) and any(f_ for _, f_ in zs):
-            ctx.bad("R1", "_assign_rates:iteration", (FILE, rets[0].line),
-                    "statements are built over enumerate(zip(guards, rates)) where both are unfiltered one-to-one views of the same `reactions` list",
-                    found=show(it)[:200])
-            return
     if zargs is None or any(opaque(b_) for b_, _ in srcs):
         ctx.unrec("R1", "_assign_rates:iteration", (FILE, rets[0].line),
                   "cannot see how the statements are paired with the reactions (expected enumerate(zip(guards, rates)) over views of `reactions`): " + show(it)[:160])
